@@ -290,6 +290,9 @@ func ruleInstallRefs(c *Ctx) {
 			want = fmt.Sprintf("handleReferences(recv,%s,%s,%s.%s.%s)", holder, origTerm, tvar, k.OneofField, k.PayloadFld)
 		case k.Table == "NextHopGroup":
 			want = fmt.Sprintf("handleNHGReferences(%s,%s,%s.%s.%s)", holder, origTerm, tvar, k.OneofField, k.PayloadFld)
+			if c.P.Func("rib", "RIB", "handleNHGReferences") == nil {
+				want = "<member bookkeeping in place>" // judged by NHG-REFERENCES on this very branch
+			}
 		}
 		ev := refEvents(fi)
 		paths, _ := enumPaths(info, cl.Body, ev)
@@ -302,6 +305,14 @@ func ruleInstallRefs(c *Ctx) {
 				evs = append(evs, e.Kind)
 			}
 			got := strings.Join(evs, ";")
+			if want == "<member bookkeeping in place>" && installedPath {
+				for _, e := range evs {
+					if !strings.HasPrefix(e, "incNH["+holder+"]") && !strings.HasPrefix(e, "decNH["+holder+"]") {
+						bad = fmt.Sprintf("on the installed branch of the next-hop-group arm the bookkeeping contains %s, expected only member counter events on the group's own holder", e)
+					}
+				}
+				continue
+			}
 			switch {
 			case installedPath && got != want:
 				bad = fmt.Sprintf("on the installed branch the reference bookkeeping is [%s], expected [%s]", got, want)
@@ -372,17 +383,17 @@ func ruleHandleReferencesTable(c *Ctx) {
 // handleNHGReferences: one loop inc(new member), one loop dec(original member) guarded by non-nil
 func ruleNHGReferences(c *Ctx) {
 	const rule = "NHG-REFERENCES"
-	fi := c.need("rib", "RIB", "handleNHGReferences")
-	if fi == nil {
+	// the member bookkeeping lives in handleNHGReferences — or, when that helper has been folded into its
+	// caller, in the installed branch of addEntryInternal's next-hop-group arm: the rule works on a region
+	// (statements + the roles holder / replaced group / new group), whichever of the two exists
+	reg := nhgRefRegion(c)
+	if reg == nil {
 		return
 	}
+	fi := reg.fi
 	info := fi.Pkg.TypesInfo
-	ps := paramObjs(info, fi.Decl)
-	if len(ps) != 3 {
-		c.undecided(rule, fi.Name, "signature", c.P.pos(fi.Decl.Pos()), "unexpected parameters")
-		return
-	}
-	holder, orig, nw := ps[0], ps[1], ps[2]
+	holder, orig, nw := reg.holder, reg.orig, reg.nw
+	regionBody := &ast.BlockStmt{List: reg.body}
 	// which member loop does each counter call sit in
 	type loopOf struct {
 		root types.Object
@@ -400,13 +411,16 @@ func ruleNHGReferences(c *Ctx) {
 	}
 	sets := map[types.Object]*memberSet{}
 	isMemberRange := func(rs *ast.RangeStmt) (types.Object, bool) {
-		ro, rp := selectorPath(info, resolveLocal(info, fi.Decl, rs.X))
-		if (ro == nw || ro == orig) && strings.Join(rp, ".") == "NextHop" {
-			return ro, true
+		ro, rp := aliasedSelectorPath(info, fi.Decl, resolveLocal(info, fi.Decl, rs.X))
+		if ro == orig && strings.Join(rp, ".") == "NextHop" {
+			return orig, true
+		}
+		if reg.isNew(ro, rp[:max(len(rp)-1, 0)]) && len(rp) > 0 && rp[len(rp)-1] == "NextHop" {
+			return nw, true
 		}
 		return nil, false
 	}
-	inspectNoFuncLit(fi.Decl.Body, func(n ast.Node) bool {
+	inspectNoFuncLit(regionBody, func(n ast.Node) bool {
 		rs, ok := n.(*ast.RangeStmt)
 		if !ok {
 			return true
@@ -451,7 +465,7 @@ func ruleNHGReferences(c *Ctx) {
 		return true
 	})
 	// any other write to a candidate member set disqualifies it
-	inspectNoFuncLit(fi.Decl.Body, func(n ast.Node) bool {
+	inspectNoFuncLit(regionBody, func(n ast.Node) bool {
 		switch x := n.(type) {
 		case *ast.AssignStmt:
 			for _, l := range x.Lhs {
@@ -459,7 +473,7 @@ func ruleNHGReferences(c *Ctx) {
 					if ms := sets[objOfIdent(info, ie.X)]; ms != nil {
 						// must be one of the unconditional fills found above: its parent is a member loop body
 						encl := false
-						inspectNoFuncLit(fi.Decl.Body, func(q ast.Node) bool {
+						inspectNoFuncLit(regionBody, func(q ast.Node) bool {
 							if rs, ok := q.(*ast.RangeStmt); ok {
 								if _, isM := isMemberRange(rs); isM {
 									for _, st := range rs.Body.List {
@@ -492,7 +506,7 @@ func ruleNHGReferences(c *Ctx) {
 	memberLoops := map[ast.Node]bool{}
 	seenGuards := map[ast.Expr]bool{}      // `if seen[id] { continue }` of a first-occurrence loop
 	dupFree := map[*ast.RangeStmt]string{} // counter loop → why its domain names every member once ("" = it may not)
-	inspectNoFuncLit(fi.Decl.Body, func(n ast.Node) bool {
+	inspectNoFuncLit(regionBody, func(n ast.Node) bool {
 		rs, ok := n.(*ast.RangeStmt)
 		if !ok {
 			return true
@@ -500,7 +514,8 @@ func ruleNHGReferences(c *Ctx) {
 		ro, rp := selectorPath(info, resolveLocal(info, fi.Decl, rs.X))
 		lo := loopOf{root: ro, path: strings.Join(rp, "."), val: objOfIdent(info, rs.Value), rs: rs}
 		_, rangedIsMap := info.TypeOf(rs.X).Underlying().(*types.Map)
-		if (ro == nw || ro == orig) && lo.path == "NextHop" {
+		if mr, isM := isMemberRange(rs); isM {
+			lo.root, lo.path = mr, "NextHop"
 			memberLoops[rs] = true
 			if rangedIsMap {
 				lo.key = objOfIdent(info, rs.Key)
@@ -547,10 +562,11 @@ func ruleNHGReferences(c *Ctx) {
 		return out
 	}
 	// every member loop is taken to run once: what happens to one member happens to all
-	paths, pe := enumFunc(fi, ev, func(n ast.Node) bool { return memberLoops[n] })
+	pe := &pathEnum{info: info, ev: ev, cap: pathCap, atLeastOnce: func(n ast.Node) bool { return memberLoops[n] }, fd: fi.Decl}
+	paths, _ := pe.run(reg.body)
 	c.Sites += len(paths)
 	if pe.overflow || len(pe.unsup) > 0 || len(paths) == 0 {
-		c.undecided(rule, fi.Name, "body", c.P.pos(fi.Decl.Pos()), "path enumeration incomplete")
+		c.undecided(rule, fi.Name, "body", reg.pos, "path enumeration incomplete")
 		return
 	}
 	bad := ""
@@ -589,7 +605,7 @@ func ruleNHGReferences(c *Ctx) {
 			bad = fmt.Sprintf("per member the path performs [%s], want [%s] (every member of the new group gains a reference, every member of the replaced group loses one, unconditionally): %s", got, want, p.describe(c.P))
 		}
 	}
-	c.check(bad == "" && len(memberLoops) >= 2, rule, fi.Name, "inc every new member, dec every replaced member", c.P.pos(fi.Decl.Pos()),
+	c.check(bad == "" && len(memberLoops) >= 2, rule, fi.Name, "inc every new member, dec every replaced member", reg.pos,
 		fmt.Sprintf("%d paths: for m in new.NextHop: inc(m.Index); if original != nil: for m in original.NextHop: dec(m.Index)", len(paths)), bad)
 	// the domain of every counter loop names each member once: the installed group is a map keyed by
 	// member id, so a later delete / replace / flush releases each member exactly once — a loop over the
@@ -1242,6 +1258,13 @@ func ruleCounterCallers(c *Ctx) {
 		"incNHRefCount":  {"rib.(*RIB).handleNHGReferences"},
 		"decNHRefCount":  {"rib.(*RIB).handleNHGReferences", "rib.(*RIB).DeleteEntry", "rib.(*RIBHolder).locklessDeleteNHG"},
 	}
+	if c.P.Func("rib", "RIB", "handleNHGReferences") == nil {
+		// the helper was folded into its only caller, which takes its place in the audit (NHG-REFERENCES judges the
+		// bookkeeping there)
+		for _, n := range []string{"incNHRefCount", "decNHRefCount"} {
+			allow[n] = append(allow[n], "rib.(*RIB).addEntryInternal")
+		}
+	}
 	for _, name := range []string{"incNHGRefCount", "decNHGRefCount", "incNHRefCount", "decNHRefCount"} {
 		fi := c.need("rib", "RIBHolder", name)
 		if fi == nil {
@@ -1299,6 +1322,17 @@ func ruleCounterCallers(c *Ctx) {
 			}
 			for fn := range ssaFuncsOf(c.P, sp) {
 				allInstrs(fn, true, func(f *ssaFn, _ *ssaBlock, in ssaInstr) {
+					// delete(m, k) / clear(m) on the counter map: an entry (or all of them) is forgotten, whatever it counted
+					if call, ok := in.(*ssaCall); ok {
+						if b, isB := call.Call.Value.(*ssaBuiltin); isB && (b.Name() == "delete" || b.Name() == "clear") && len(call.Call.Args) >= 1 && isLoadOfField(call.Call.Args[0], fv) {
+							n++
+							nm := "?"
+							if d := declaredOf(f); d != nil {
+								nm = displayName(d)
+							}
+							bad = append(bad, nm+" ("+b.Name()+"s counter entries)")
+						}
+					}
 					if mu, ok := in.(*ssaMapUpdate); ok {
 						if isLoadOfField(mu.Map, fv) {
 							n++
@@ -1440,4 +1474,102 @@ func substRoles(kind string, roles map[string]string) string {
 		i++
 	}
 	return b.String()
+}
+
+// nhgRegion: where the member bookkeeping of a next-hop-group install is written, with its roles.
+type nhgRegion struct {
+	fi           *FuncInfo
+	body         []ast.Stmt
+	holder, orig types.Object
+	nw           types.Object                                // stands for "the new group" in events (a parameter, or the type-switch variable)
+	isNew        func(root types.Object, path []string) bool // does root.path denote the new group's payload
+	pos          string
+}
+
+func nhgRefRegion(c *Ctx) *nhgRegion {
+	const rule = "NHG-REFERENCES"
+	if fi := c.P.Func("rib", "RIB", "handleNHGReferences"); fi != nil && fi.Decl.Body != nil {
+		c.Analysed[fi.Name] = true
+		info := fi.Pkg.TypesInfo
+		ps := paramObjs(info, fi.Decl)
+		if len(ps) != 3 {
+			c.undecided(rule, fi.Name, "signature", c.P.pos(fi.Decl.Pos()), "unexpected parameters")
+			return nil
+		}
+		nw := ps[2]
+		return &nhgRegion{fi: fi, body: fi.Decl.Body.List, holder: ps[0], orig: ps[1], nw: nw, pos: c.P.pos(fi.Decl.Pos()),
+			isNew: func(root types.Object, path []string) bool { return root == nw && len(path) == 0 }}
+	}
+	// folded into the caller: the installed branch of the NextHopGroup arm of addEntryInternal
+	fi := c.need("rib", "RIB", "addEntryInternal")
+	ks := c.kindsOK()
+	if fi == nil || ks == nil {
+		return nil
+	}
+	info := fi.Pkg.TypesInfo
+	var k *Kind
+	for _, kk := range ks {
+		if kk.Table == "NextHopGroup" {
+			k = kk
+		}
+	}
+	var ts *ast.TypeSwitchStmt
+	inspectNoFuncLit(fi.Decl.Body, func(n ast.Node) bool {
+		if t, ok := n.(*ast.TypeSwitchStmt); ok && ts == nil {
+			ts = t
+		}
+		return true
+	})
+	if ts == nil || k == nil {
+		c.vanished(rule, fi.Name, "next-hop-group arm", "neither handleNHGReferences nor a type switch over the operation's entry exists")
+		return nil
+	}
+	var tvar types.Object
+	for _, cc := range ts.Body.List {
+		cl := cc.(*ast.CaseClause)
+		if len(cl.List) != 1 || !isNamed(info.TypeOf(cl.List[0]), spbPath, k.OpOneof) {
+			continue
+		}
+		tvar = info.Implicits[cl]
+		var holder, orig, done types.Object
+		ast.Inspect(cl, func(n ast.Node) bool {
+			if as, ok := n.(*ast.AssignStmt); ok && len(as.Rhs) == 1 && len(as.Lhs) == 3 {
+				if call, ok := ast.Unparen(as.Rhs[0]).(*ast.CallExpr); ok && calleeObj(info, call) == k.Add.Obj {
+					if se, ok := ast.Unparen(call.Fun).(*ast.SelectorExpr); ok {
+						holder = objOfIdent(info, se.X)
+					}
+					done, orig = objOfIdent(info, as.Lhs[0]), objOfIdent(info, as.Lhs[1])
+				}
+			}
+			return true
+		})
+		if holder == nil || orig == nil || done == nil {
+			continue
+		}
+		// the statements executed when done is true: `case done:` of a tagless switch, or `if done {…}`
+		var body []ast.Stmt
+		ast.Inspect(cl, func(n ast.Node) bool {
+			switch x := n.(type) {
+			case *ast.CaseClause:
+				if len(x.List) == 1 && objOfIdent(info, x.List[0]) == done {
+					body = x.Body
+				}
+			case *ast.IfStmt:
+				if objOfIdent(info, x.Cond) == done && body == nil {
+					body = x.Body.List
+				}
+			}
+			return true
+		})
+		if body == nil {
+			continue
+		}
+		tv := tvar
+		return &nhgRegion{fi: fi, body: body, holder: holder, orig: orig, nw: tv, pos: c.P.pos(cl.Pos()),
+			isNew: func(root types.Object, path []string) bool {
+				return root == tv && len(path) == 2 && path[0] == k.OneofField && path[1] == k.PayloadFld
+			}}
+	}
+	c.vanished(rule, fi.Name, "next-hop-group arm", "handleNHGReferences does not exist and the installed branch of the next-hop-group arm of addEntryInternal cannot be identified")
+	return nil
 }
